@@ -26,7 +26,7 @@ SCRATCH_ROOT = os.environ.get("VERIF_SCRATCH", "/var/tmp/jlverif")
 KANI_HOME = os.path.expanduser("~/.kani/kani-0.68.0")
 KANI_LIB_C = os.path.join(KANI_HOME, "library/kani/kani_lib.c")
 CACHE = os.path.join(VERIF, ".cache")
-NCPU = os.cpu_count() or 4
+NCPU = int(os.environ.get("VERIF_NCPU", "0")) or os.cpu_count() or 4
 MEM_BUDGET_GB = int(os.environ.get("VERIF_MEM_GB", "54"))
 
 PARENT_FILE = {
